@@ -18,7 +18,7 @@ def run(ctx):
     # refusals on. bad = no request pending although re-examining a record changes the state / a transaction is not final
     cfgw = dict(nt=1, nx=2, sync=False, rollback=False, faults=True, crash=False, work=True)
     wbad = ['bad:c09-idle-not-fixed-point', 'bad:c09-idle-not-final']
-    dw = 18 if quick else 30
+    dw = 16 if quick else 30
     qw = [('reach', 28, ['reach:tx1-applied']), ('bad', dw, wbad)] if quick else [('reach', 28, ['reach:tx1-applied']), ('bad', dw, [wbad[0]]), ('bad', dw, [wbad[1]])]
     wsteps = 12 if quick else 20
     if not quick:
